@@ -39,6 +39,8 @@ type c15Mod struct {
 	pubGlob  map[string]bool
 	imports  map[string][]string // from module -> items (functions or globals)
 	impOrder []string
+	factories []string // globals for which a pub function mk_<global>() returns a closure that marks and returns it
+	hasApply  bool     // pub fn apply_<mod>(cb: fn() -> str) -> str { cb() }
 }
 
 type c15Graph struct {
@@ -99,8 +101,41 @@ func (m *c15Mod) addImport(from, item string) {
 var c15FnNames = []string{"f", "g", "h"}
 var c15GlobNames = []string{"x", "y"}
 
+// c15Chain: main -> ma -> mb -> mc (-> md): every module is reachable from the entry module
+// only through the previous one, all define a global x and the functions overlap in nothing else.
+func c15Chain(seed int) *c15Graph {
+	r := simrt.NewRng(simrt.Mix(uint64(seed), 0xc4a1))
+	g := &c15Graph{overlap: "global"}
+	main := &c15Mod{name: "main", pubGlob: map[string]bool{}, globals: []string{"x"}}
+	g.mods = append(g.mods, main)
+	n := 3 + r.Intn(2)
+	names := []string{"ma", "mb", "mc", "md"}
+	for i := 0; i < n; i++ {
+		m := &c15Mod{name: names[i], pubGlob: map[string]bool{}}
+		if i == n-1 || r.Intn(3) > 0 {
+			m.globals = []string{"x"}
+		}
+		f := c15Fn{name: fmt.Sprintf("c%d", i), pub: true, wrap: r.Intn(5)}
+		if len(m.globals) > 0 {
+			f.global = "x"
+		}
+		if i < n-1 {
+			f.callees = []string{fmt.Sprintf("c%d", i+1)}
+			m.addImport(names[i+1], fmt.Sprintf("c%d", i+1))
+		}
+		m.fns = []c15Fn{f}
+		g.mods = append(g.mods, m)
+	}
+	main.addImport("ma", "c0")
+	g.mainBody = []string{"call:c0", "call:c0", "print-own:x"}
+	return g
+}
+
 // c15Gen builds a legal graph from a seed, then (optionally) breaks it in exactly one way.
 func c15Gen(seed int, illegal int) *c15Graph {
+	if illegal == 100 {
+		return c15Chain(seed)
+	}
 	r := simrt.NewRng(simrt.Mix(uint64(seed), 0xc15))
 	g := &c15Graph{}
 	main := &c15Mod{name: "main", pubGlob: map[string]bool{}}
@@ -217,6 +252,26 @@ func c15Gen(seed int, illegal int) *c15Graph {
 			main.fns = append(main.fns, f)
 		}
 	}
+	var late []string // statements of main that come after the imported globals have been printed
+	// closures crossing a module boundary: a closure made in a library and called by main must use
+	// the library's globals; a closure made in main and called by a library must use main's
+	for i := 1; i < len(g.mods); i++ {
+		m := g.mods[i]
+		if len(m.globals) > 0 && r.Intn(3) == 0 {
+			gn := m.globals[r.Intn(len(m.globals))]
+			name := "mk" + gn + m.name
+			if _, dup := main.imported(name); !dup {
+				m.factories = append(m.factories, gn)
+				main.addImport(m.name, name)
+				late = append(late, "closure:"+m.name+":"+gn)
+			}
+		}
+		if len(main.globals) > 0 && r.Intn(4) == 0 {
+			m.hasApply = true
+			main.addImport(m.name, "apply"+m.name)
+			late = append(late, "callback:"+m.name+":"+main.globals[r.Intn(len(main.globals))])
+		}
+	}
 	if len(main.impOrder) == 0 {
 		lib := g.mods[1]
 		for _, f := range lib.fns {
@@ -246,6 +301,7 @@ func c15Gen(seed int, illegal int) *c15Graph {
 			g.mainBody = append(g.mainBody, "call:"+f.name)
 		}
 	}
+	g.mainBody = append(g.mainBody, late...)
 	for _, gn := range main.globals {
 		g.mainBody = append(g.mainBody, "print-own:"+gn)
 	}
@@ -378,6 +434,12 @@ func (g *c15Graph) sources() Program {
 			}
 			b.WriteString("}\n")
 		}
+		for _, gn := range m.factories {
+			fmt.Fprintf(&b, "pub fn mk%s%s() -> fn() -> str {\n    fn() -> str { %s = %s + \"+\"; %s }\n}\n", gn, m.name, gn, gn, gn)
+		}
+		if m.hasApply {
+			fmt.Fprintf(&b, "pub fn apply%s(cb: fn() -> str) -> str { cb() }\n", m.name)
+		}
 		b.WriteString("fn main() {\n")
 		if m.name == "main" {
 			for _, st := range g.mainBody {
@@ -389,6 +451,12 @@ func (g *c15Graph) sources() Program {
 					fmt.Fprintf(&b, "    println(\"main sees imported\", \"%s\", %s);\n", arg, arg)
 				case "print-own":
 					fmt.Fprintf(&b, "    println(\"main own\", \"%s\", %s);\n", arg, arg)
+				case "closure":
+					mod, gn, _ := strings.Cut(arg, ":")
+					fmt.Fprintf(&b, "    let c%s%s = mk%s%s();\n    println(\"closure\", \"%s.%s\", c%s%s());\n    println(\"closure\", \"%s.%s\", c%s%s());\n", gn, mod, gn, mod, mod, gn, gn, mod, mod, gn, gn, mod)
+				case "callback":
+					mod, gn, _ := strings.Cut(arg, ":")
+					fmt.Fprintf(&b, "    println(\"callback via\", \"%s\", apply%s(fn() -> str { %s = %s + \"+\"; %s }));\n", mod, mod, gn, gn, gn)
 				}
 			}
 		}
@@ -448,6 +516,16 @@ func (g *c15Graph) expected() []string {
 			out = append(out, fmt.Sprintf("main sees imported %s %s", arg, vals[from+"."+arg]))
 		case "print-own":
 			out = append(out, fmt.Sprintf("main own %s %s", arg, vals["main."+arg]))
+		case "closure":
+			mod, gn, _ := strings.Cut(arg, ":")
+			for k := 0; k < 2; k++ {
+				vals[mod+"."+gn] += "+"
+				out = append(out, fmt.Sprintf("closure %s.%s %s", mod, gn, vals[mod+"."+gn]))
+			}
+		case "callback":
+			mod, gn, _ := strings.Cut(arg, ":")
+			vals["main."+gn] += "+"
+			out = append(out, fmt.Sprintf("callback via %s %s", mod, vals["main."+gn]))
 		}
 	}
 	return out
@@ -595,6 +673,9 @@ func planC15(t *testing.T, tier string, seed uint64) ([]RunSpec, error) {
 			add(map[string]int{"g": gseed, "backend": backend, "illegal": 0}, nil, orders)
 			ill := 1 + gi%7
 			add(map[string]int{"g": gseed, "backend": backend, "illegal": ill}, nil, 1+orders/4)
+			if gi%4 == 1 {
+				add(map[string]int{"g": gseed, "backend": backend, "illegal": 100}, nil, 1+orders/2)
+			}
 			// host lookup faults on each of the first lookups
 			if gi%3 == 0 {
 				for at := 1; at <= 3; at++ {
